@@ -162,6 +162,7 @@ type QCfg struct {
 	NoDecScaleCompare bool // both operands of a DECIMAL comparison have scale 2
 	NoNullArith       bool // a NULL literal is never an arithmetic operand (typed DOUBLE by this engine: float territory)
 	NoOnNullableInner bool // after a LEFT JOIN, the ON of a later INNER JOIN does not reference the LEFT JOIN's right table
+	NoInnerAfterOuter bool // join chains have the shape [RIGHT] (INNER|CROSS)* (LEFT)*: no inner/cross/right join after an outer join
 }
 
 type tabRef struct {
@@ -318,6 +319,19 @@ func (g *Gen) num(c *gctx, t Type, depth int) *Expr {
 				et = TInt
 			}
 			args = append(args, g.num(c, et, depth-1))
+		}
+		// at least one value branch is not a NULL literal (a NULL-only CASE is a NULL-typed expression)
+		allNull := true
+		for i := 1; i < len(args); i += 2 {
+			if !(args[i].Op == "lit" && args[i].V.IsNull()) {
+				allNull = false
+			}
+		}
+		if len(args)%2 == 1 && !(args[len(args)-1].Op == "lit" && args[len(args)-1].V.IsNull()) {
+			allNull = false
+		}
+		if allNull {
+			args[1] = g.col(c, t)
 		}
 		return &Expr{Op: "case", T: t, Args: args}
 	case x < 75:
@@ -651,7 +665,7 @@ func (g *Gen) aggExpr(c *gctx, t Type, allowAvg bool) (*Expr, bool) {
 			dist := g.pct(10)
 			old := g.simple
 			g.simple = g.simple || dist
-			arg := g.num(ac, at, 1)
+			arg := g.nonLit(ac, g.num(ac, at, 1))
 			g.simple = old
 			return &Expr{Op: "agg", T: TDec, Sym: "AVG", Args: []*Expr{arg}, Distinct: dist}, true
 		}
@@ -659,7 +673,7 @@ func (g *Gen) aggExpr(c *gctx, t Type, allowAvg bool) (*Expr, bool) {
 		if g.subLevel > 0 && g.cfg.NoHashDecScaleMix && fn == "SUM" {
 			fn = "MAX"
 		}
-		return &Expr{Op: "agg", T: TDec, Sym: fn, Args: []*Expr{g.num(ac, TDec, 1)}}, false
+		return &Expr{Op: "agg", T: TDec, Sym: fn, Args: []*Expr{g.nonLit(ac, g.num(ac, TDec, 1))}}, false
 	}
 	switch x := g.rnd.Intn(100); {
 	case x < 25:
@@ -668,14 +682,14 @@ func (g *Gen) aggExpr(c *gctx, t Type, allowAvg bool) (*Expr, bool) {
 		dist := g.pct(40)
 		old := g.simple
 		g.simple = g.simple || dist
-		arg := g.anyExpr(ac, 0)
+		arg := g.nonLit(ac, g.anyExpr(ac, 0))
 		g.simple = old
 		return &Expr{Op: "agg", T: TInt, Sym: "COUNT", Distinct: dist, Args: []*Expr{arg}}, false
 	case x < 70 && !g.noSumInt:
-		return &Expr{Op: "agg", T: TInt, Sym: "SUM", Distinct: g.pct(15), Args: []*Expr{g.num(ac, TInt, 1)}}, false
+		return &Expr{Op: "agg", T: TInt, Sym: "SUM", Distinct: g.pct(15), Args: []*Expr{g.nonLit(ac, g.num(ac, TInt, 1))}}, false
 	}
 	fn := []string{"MIN", "MAX"}[g.rnd.Intn(2)]
-	return &Expr{Op: "agg", T: TInt, Sym: fn, Args: []*Expr{g.num(ac, TInt, 1)}}, false
+	return &Expr{Op: "agg", T: TInt, Sym: fn, Args: []*Expr{g.nonLit(ac, g.num(ac, TInt, 1))}}, false
 }
 
 // selectBlock generates one SELECT block.
@@ -728,6 +742,19 @@ func (g *Gen) selectBlock(c *gctx, o blockOpts) *Query {
 			default:
 				f.Join = "CROSS"
 			}
+			if g.cfg.NoInnerAfterOuter {
+				outerSeen := false
+				for _, p := range q.From {
+					if p.Join == "LEFT" || p.Join == "RIGHT" {
+						outerSeen = true
+					}
+				}
+				if outerSeen {
+					f.Join = "LEFT"
+				} else if f.Join == "RIGHT" && k > 1 {
+					f.Join = "INNER"
+				}
+			}
 			if f.Join != "CROSS" {
 				f.On = g.onPred(c)
 				if g.cfg.NoOnNullableInner && f.Join == "INNER" {
@@ -738,7 +765,7 @@ func (g *Gen) selectBlock(c *gctx, o blockOpts) *Query {
 						f.Join, f.On = "CROSS", nil
 					}
 				}
-				if g.cfg.NoConstFalseOnSub && f.On.Op == "cmp" && f.On.Args[0].Op == "lit" && f.On.Args[1].Op == "lit" {
+				if g.cfg.NoConstFalseOnSub && f.On != nil && f.On.Op == "cmp" && f.On.Args[0].Op == "lit" && f.On.Args[1].Op == "lit" {
 					if o.sub || (depth0 > 0 && g.pct(50)) {
 						f.On = g.onEq(c) // keep the subqueries, give up the constant-false ON
 					} else {
